@@ -11,7 +11,7 @@ EXTENDS Integers, Sequences, FiniteSets, TLC
 
 \* attribute -> default kind and declared default contents
 \* scalars are ints; lists sequences; dict / set as sorted sequences; "t_cont": <<list, int>>
-Attrs == {"c_int", "l_plain", "l_init", "d_plain", "s_plain", "a_list", "a_dict", "f_call", "m_dyn", "m_list", "t_cont",
+Attrs == {"c_int", "l_plain", "l_init", "d_plain", "s_plain", "a_list", "a_lsub", "a_dict", "f_call", "m_dyn", "m_list", "t_cont",
           "u_cont", "o_int", "n_int", "mp", "arr", "pf"}
 Default(a, sub) ==     \* sub: the instance belongs to the subclass overriding c_int (o_int) and the dynamic default
   CASE a = "c_int"   -> 3
@@ -21,6 +21,7 @@ Default(a, sub) ==     \* sub: the instance belongs to the subclass overriding c
     [] a = "l_init"  -> <<1, 2>>                              \* a fresh copy of the declared list per instance
     [] a = "d_plain" -> <<>>
     [] a = "s_plain" -> <<>>
+    [] a = "a_lsub"  -> <<1, 2>>                              \* Any(<instance of a list subclass>): copied per instance just the same
     [] a = "a_list"  -> <<1, 2>>                              \* Any([1, 2]): list defaults are copied per instance
     [] a = "a_dict"  -> <<<<1, 1>>>>                          \* Any({1: 1})
     [] a = "f_call"  -> <<>>                                  \* callable-and-args factory: a new (empty) box per instance
@@ -32,7 +33,7 @@ Default(a, sub) ==     \* sub: the instance belongs to the subclass overriding c
     [] a = "arr"     -> <<>>                                  \* Array(): a zero-size array, copied per instance
     [] a = "pf"      -> 11                                    \* _pf_default method; the trait's post_setattr hook raises the first time
 Dynamic == {"m_dyn", "m_list", "pf"}                          \* defaults computed by a method (counted)
-Mutable == {"l_plain", "l_init", "d_plain", "s_plain", "a_list", "a_dict", "f_call", "m_list", "t_cont", "u_cont", "arr"}
+Mutable == {"l_plain", "l_init", "d_plain", "s_plain", "a_list", "a_lsub", "a_dict", "f_call", "m_list", "t_cont", "u_cont", "arr"}
 Handled == {"c_int", "o_int", "m_dyn", "n_int"}               \* the attributes "register" puts handlers on
 FaultOnFirstRead == {"pf"}
 FaultRet == -1                                                \* what a read that raised the hook's exception "returns"
